@@ -476,6 +476,9 @@ SEED_BOOKS = {
     # time-to-live values registered in DEcreasing order of expiry on each side (a long-lived order first)
     "mixed_ttl": [L(B, 99, 1, 3), L(B, 98, 1, 1), L(S, 101, 1, 3), L(S, 102, 2, 1), L(B, 97, 1, 2)],
     # four fills in one round (book crossed during a not-running phase)
+    # a market that has lived through 99 clock steps with its default storage chunk of 100: the next steps cross the
+    # boundary at which its series are grown
+    "step99": [L(B, 98, 2), L(S, 102, 1), L(B, 99, 1)] + [("T",)] * 49 + [L(S, 99, 1), L(S, 101, 2)] + [("T",)] * 50,
     "multi_fill": [("R",), L(B, 101, 1), L(B, 101, 1), L(B, 100, 2), L(S, 99, 1), L(S, 99, 2), L(S, 100, 1), ("R",)],
 }
 SEED_KW = {
